@@ -47,7 +47,8 @@ func NewAufsPlacer(workDir fs.AbsolutePath) (Placer, error) {
 		case fs.Type_Dir:
 			// pass
 		case fs.Type_Symlink, fs.Type_NamedPipe, fs.Type_Socket, fs.Type_Device, fs.Type_CharDevice:
-			return BindPlacer(srcPath, dstPath, writable)
+			// As in the overlay placer: a writable bind would hand out the source node itself.
+			return BindPlacer(srcPath, dstPath, false)
 		default:
 			panic("unreachable file type enum")
 		}
